@@ -45,7 +45,7 @@ def replay_ab(harness):
 
 REPLAY = {"C12": replay_ab("term"),
           "C04": replay_ab("stw"),
-          "C03": props_b.c03_replay, "C09": replay_ab("waitq"), "C14": tier_c.c14_replay, "C13": tier_b.replay_file}
+          "C03": props_b.c03_replay, "C09": replay_ab("waitq"), "C14": tier_c.c14_replay, "C15": tier_c.c15_replay, "C18": tier_c.c18_replay, "C13": tier_b.replay_file}
 
 
 def main(argv):
